@@ -83,6 +83,30 @@ pub fn seq_add_get_box<S: Src>(s: &mut S) {
     drop(arena);
 }
 
+/// C06.seq_cross_bucket - one thread fills the first bucket (128 slots) and crosses into the
+/// second one: the refs on both sides of the boundary read back what was added, len() counts
+/// every add, and drop frees both buckets (CBMC memory model on the real unsafe code).
+pub fn seq_cross_bucket<S: Src>(s: &mut S) {
+    let arena: AtomicArena<'_, u8> = AtomicArena::new();
+    let x = s.u8();
+    let y = s.u8();
+    let mut i: u32 = 0;
+    let mut r_last_of_first = None;
+    let mut r_first_of_second = None;
+    while i < 130 {
+        let v = if i == 127 { x } else if i == 128 { y } else { i as u8 };
+        let r = arena.add(v);
+        assert!(r.index() == i);
+        if i == 127 { r_last_of_first = Some(r); }
+        if i == 128 { r_first_of_second = Some(r); }
+        i += 1;
+    }
+    assert!(arena.len() == 130);
+    assert!(*arena.get(r_last_of_first.unwrap()) == x);
+    assert!(*arena.get(r_first_of_second.unwrap()) == y);
+    drop(arena);
+}
+
 /// Vacuity canaries: must FAIL.
 pub fn canary_index<S: Src>(s: &mut S) {
     let i = s.u32();
@@ -105,6 +129,7 @@ pub fn dispatch<S: Src>(name: &str, s: &mut S) -> bool {
         "ref_index_roundtrip" => ref_index_roundtrip(s),
         "seq_add_get" => seq_add_get(s),
         "seq_add_get_box" => seq_add_get_box(s),
+        "seq_cross_bucket" => seq_cross_bucket(s),
         _ => return false,
     }
     true
@@ -134,6 +159,11 @@ mod proofs {
     #[kani::stub(<parking_lot::RawMutex as lock_api::RawMutex>::unlock, noop_unlock)]
     #[kani::unwind(5)]
     fn seq_add_get_box() { super::seq_add_get_box(&mut KaniSrc) }
+    #[kani::proof]
+    #[kani::stub(<parking_lot::RawMutex as lock_api::RawMutex>::lock, noop_lock)]
+    #[kani::stub(<parking_lot::RawMutex as lock_api::RawMutex>::unlock, noop_unlock)]
+    #[kani::unwind(132)]
+    fn seq_cross_bucket() { super::seq_cross_bucket(&mut KaniSrc) }
     #[kani::proof]
     fn canary_index() { super::canary_index(&mut KaniSrc) }
     #[kani::proof]
